@@ -1,6 +1,8 @@
 //! Shared utilities of the verification harnesses (deterministic PRNG, token output, simulated chain).
 pub mod rng;
 pub mod simchain;
+pub mod locks;
+pub mod pollworld;
 pub mod simnode;
 pub mod world;
 
@@ -46,6 +48,9 @@ pub fn install_panic_hook() {
                 format!("{}:{}", f, l.line())
             })
             .unwrap_or_else(|| "?".into());
+        if std::env::var("VERIF_SHOW_PANICS").is_ok() {
+            eprintln!("panic at {loc}: {info}");
+        }
         if let Ok(mut g) = LAST_PANIC.lock() {
             *g = Some(loc);
         }
